@@ -66,7 +66,7 @@ MC = {
                 thorough=[cfgd(RF=1, Addr=addrs(2), MaxW=1, MaxSnap=2, Ops={"snapshot", "snapfail", "cpfail"}),
                           cfgd(MaxW=1, MaxSnap=2, Ops={"snapshot"})],
                 mutants=[("snapNoGate", "SnapNeedsAllRW")]),
-    "C18": dict(quick=[cfgd(RF=1, Addr=addrs(2), MaxW=1, Ops={"seterr", "createfail"}), cfgd(MaxW=1, Ops={"seterr"})],
+    "C18": dict(quick=[cfgd(RF=1, Addr=addrs(2), MaxW=1, Ops={"seterr", "createfail", "resize"}), cfgd(MaxW=1, Ops={"seterr"})],
                 thorough=[cfgd(MaxW=1, Ops={"seterr", "createfail", "read"}),
                           cfgd(RF=3, Addr=addrs(4), MaxW=1, Ops={"seterr"})],
                 mutants=[("addNoSecondRFCheck", "AtMostRF")]),
@@ -75,7 +75,8 @@ MC = {
 PROFILE = {"C02": "mixed", "C03": "membership", "C04": "mixed", "C05": "mixed", "C09": "bootstrap",
            "C13": "snapshot", "C18": "membership",
            "C07": "rebuildrace",    # embedded in the cluster family's C07 check (controller side of a rebuild)
-           "C01": "oob"}            # embedded in the replica family's C01 check (the controller's range check)
+           "C01": "oob",            # embedded in the replica family's C01 check (the controller's range check)
+           "C16": "ctlresize"}      # embedded in the replica family's C16 check (the controller's grow)
 
 IO_EVS = {"Write", "Sync", "Unmap", "Read"}
 MEMBER_RULES = {"Replicas", "NoDup", "ListsAgree", "ReadersAreRW", "WritersAreNonErr", "RWCount", "CountMatches",
@@ -114,7 +115,7 @@ def attribute(f):
         p.add("C04")
     if ev == "Read" and "Result" in rules:
         p.add("C05")        # a failing minority surfaced as an I/O error (or the reverse)
-    if rules & {"ReadData", "ReadFresh", "ReadersAreRW", "ServedBy"}:
+    if rules & {"ReadData", "ReadFresh", "ReadersAreRW", "ServedBy", "ShortSuccess"}:
         p.add("C04")
     if rules & {"Signals", "SignalAfterMajority", "SignalsMax"}:
         p.add("C09")
@@ -129,6 +130,8 @@ def attribute(f):
         p.add("C07")
     if rules & {"InServiceHoldAcked", "ReadData", "ReadFresh"} and f.get("after_rebuild"):
         p.add("C07")
+    if "SizesAgree" in rules or (ev == "Resize" and rules):
+        p.add("C16")
     if "Hang" in rules:
         p |= {"C05", "C18"}
     if "Panic" in rules:
@@ -339,6 +342,8 @@ def event_to_op(e):
             op[k] = a[k]
     if ev in IO_EVS and a.get("oob"):
         return {"ev": ev + "OOB", "kind": a["oob"]}
+    if ev == "Resize":
+        return {"ev": "Resize", "F": a.get("F", [])}
     if ev in IO_EVS:
         op["F"] = a.get("A", [])
     elif ev in ("Add", "Snapshot", "AddCommit"):
@@ -353,7 +358,7 @@ def nontrivial(prop, evs):
     need = {"C02": ("Write:ok", "Write:failed"), "C03": ("Write:failed", "SetMode:ok", "RemoveReplica:ok"),
             "C04": ("Read:ok",), "C05": ("Write:ok", "Read:ok", "MonitorRun:ok"), "C09": ("Start:ok",),
             "C13": ("Snapshot:ok", "VerifyRebuild:ok"), "C18": ("Add:ok", "RemoveReplica:ok"),
-            "C07": ("VerifyRebuild:ok",), "C01": ("Write:failed", "Read:failed")}[prop]
+            "C07": ("VerifyRebuild:ok",), "C01": ("Write:failed", "Read:failed"), "C16": ("Resize:ok",)}[prop]
     return any(n in need for n in names)
 
 
@@ -438,7 +443,7 @@ def run(prop, tier, seed, replay=None, embed=False):
                         walk_files[20 + j] = wf     # two of the workers also run the walks
             if embed:
                 nproc, per = (12, 1) if quick else (24, 8)
-                if prop == "C01":
+                if prop in ("C01", "C16"):
                     nproc, per = (6, 1) if quick else (12, 6)
             for i in range(nproc):
                 pdir = os.path.join(work, "p%d" % i)
@@ -447,12 +452,12 @@ def run(prop, tier, seed, replay=None, embed=False):
                 parts.append(out)
                 rf = [1, 2, 2, 3, 2, 3, 2, 3][i % 8] if quick else [1, 2, 3, 2, 3, 4, 5, 3][i % 8]
                 if embed:
-                    rf = [3, 3, 2, 3][i % 4] if prop == "C07" else [1, 2, 3][i % 3]
+                    rf = [3, 3, 2, 3][i % 4] if prop == "C07" else ([2, 3, 3][i % 3] if prop == "C16" else [1, 2, 3][i % 3])
                 cmd = [os.path.join(BUILD, "ctrldrv"), "-out", out, "-work", pdir, "-gen", str(per),
                        "-len", str(length), "-seed", str(seed * 1000 + i), "-base", str(i * 1000),
                        "-profile", PROFILE[prop], "-rf", str(rf),
                        # embedded parts get their own loopback subnets (127.(10+worker).x)
-                       "-worker", str(i + 1 + ({"C01": 40, "C07": 60}.get(prop, 0) if embed else 0))]
+                       "-worker", str(i + 1 + ({"C01": 40, "C07": 60, "C16": 90}.get(prop, 0) if embed else 0))]
                 extra = []
                 if not embed:      # hand-written / counterexample-derived interleavings, spread over the workers
                     extra += [l for k, l in enumerate(directed) if k % nproc == i]
@@ -535,8 +540,9 @@ def run(prop, tier, seed, replay=None, embed=False):
             promos = sum(1 for evs in by_t.values() for e in evs if e["ev"] == "VerifyRebuild" and e["res"] == "ok")
             races = sum(1 for evs in by_t.values() for e in evs if e["ev"] == "Noop" and (e.get("a") or {}).get("addrace"))
             oob = sum(1 for evs in by_t.values() for e in evs if (e.get("a") or {}).get("oob"))
+            grows = sum(1 for evs in by_t.values() for e in evs if e["ev"] == "Resize" and e["res"] == "ok")
             return violations, known, dict(executions=traces, records=records, promotions=promos, adds_under_writes=races,
-                                           out_of_range_ios=oob, other_property_failures=len(others))
+                                           out_of_range_ios=oob, controller_grows=grows, other_property_failures=len(others))
         fps, nontriv, samples, evcount = set(), set(), [], {}
         for t, evs in by_t.items():
             ops = ops_upto(evs, 1 << 60)
